@@ -71,7 +71,7 @@ CHECKS = {
          "DESIGN.md §4 E2, §5 C02, A.2"),
  "C03": ("mc-graph", "model_checking",
          "explicit-state BFS (E1) over versioned-import libraries with order-insensitive state grouping; implied-interface oracle from the reference merge",
-         "All compositions of up to 4 (quick) / 5 (thorough) nodes over 10 packages requiring a:b/i unversioned and at 0.2.0/0.2.1/0.2.2(conflicting)/0.3.0/1.0.0/1.2.0/0.0.1/1.0.0-rc.1 plus plain function imports with equal and conflicting types, with explicit imports and satisfied slots, under every creation order BFS produces: the encoded import/export names, kinds and canonical types must equal the interface implied by the reference model (explicit imports, one import per semver track named for the highest version with the union type, exports = designated names), agree with imports(), and be identical for all states of one order-insensitive group.",
+         "All compositions of up to 4 (quick) / 5 (thorough) nodes over 10 packages requiring a:b/i unversioned and at 0.2.0/0.2.1/0.2.2(conflicting)/0.3.0/1.0.0/1.2.0/0.0.1/1.0.0-rc.1 plus plain function imports with equal and conflicting types, with explicit imports and satisfied slots, under every creation order BFS produces: the encoded import/export names, kinds and canonical types must equal the interface implied by the reference model (explicit imports, one import per semver track named for the highest version with the union type, exports = designated names), agree with imports(), and be identical for all states of one order-insensitive group. A second BFS (LibDep, depth 5 / 6, up to 5 / 6 nodes) runs over WIT-derived packages whose imported interfaces use types of each other (t; j uses t; k uses t and j) at versions 0.2.0 and 0.2.1, with a provider whose exports can satisfy a dependency while the dependant stays implicit: there every instance import must offer exactly the union of members its sharers need (plus the types its dependants use, at most what their packages know), at a type one sharer requires; the root interface of every used type must be imported; no other import may appear.",
          "Trusts the reference merge (A.3) and wasmparser's type tables for canonical types. No verdict where an explicit and an implicit import share a track under different names (statement silent); import sequence is not compared.",
          "DESIGN.md §5 C03, A.3"),
  "C06": ("mc-graph", "model_checking",
